@@ -10,10 +10,12 @@ CONSTANTS
   CarryLayers = {"http", "json", "signed"}
   X509Chains = {"x509", "x509b"}
   KeyOptions = {"der", "pem", "bothSame", "bothDifferent"}
+  ShapeChains = {}
+  ProbeClasses = {}
   ReplaySources = {"valid", "validEmptyTree", "validWithExtensions", "sigCorrupt", "sigByOtherKey", "sigOverOtherSize", "sigOverOtherRoot", "sigOverOtherTimestamp", "sigMissing", "idLen0", "logIDForeign", "sigOverOtherChain", "sigOverSTHInput", "sigOverSCTInput", "rootHashLen31", "extBadBase64"}
 INIT Init
 NEXT Next
 VIEW StateView
-INVARIANTS TypeOK OnlyVerifiedSTH OnlyVerifiedSCT
+INVARIANTS TypeOK OnlyVerifiedSTH OnlyVerifiedSCT ConstructionLaw
 PROPERTIES OnlyFrom200 ErrorsCarryResponse NoPartialResults NoCreditForHistory
 CHECK_DEADLOCK FALSE
